@@ -215,6 +215,18 @@ def correspond(ctx, deep=False, project=None, only=None):
             ctx.case(('hdl', label, ep, len(lg.calls)), nontrivial=len(lg.calls) > 3)
             for c in lg.calls:
                 ctx.count(f'hdl-call-kind-{c[0]}')
+    # the same histories, iteration by iteration, through the whole-endpoint model (table, routing, registration,
+    # teardown, timer sweeps are computed by the model there instead of being taken from the recording)
+    res_ep = check_endpoints(ctx, {k: v[0] for k, v in alllogs.items()}, 'all', shard=2)
+    for name, idx, ev, path, m, r in res_ep:
+        key = name.split('/', 1)[1]
+        lg, acts, conf, seed = alllogs[key]
+        what = {0: 'table', 1: 'datagrams sent', 2: 'kernel operations', 3: 'unused draws', 4: 'IKE_SA the datagram was handed to'}
+        fails.append(core.Failure(
+            'correspondence', 'endpoint:model-differs',
+            f'{key}: main_loop iteration #{idx} (event {str(ev)[:200]}) differs in {what.get(path[0] if path else -1, path)} at {path}: '
+            f'model {str(m)[:300]} / code {str(r)[:300]}',
+            {'scenario': key, 'actions': acts, 'conf': conf, 'seed': seed, 'iteration': idx}))
     res = check_logs(ctx, {k: v[0] for k, v in alllogs.items()}, 'all', project=project, shard=2)
     for name, idx, call, path, m, r in res:
         key = name.split('/', 1)[1]
@@ -233,7 +245,8 @@ def _fingerprint(ctx, deep):
     import os
     h = hashlib.sha256()
     files = sorted(glob.glob(os.path.join(core.REPO, '*.py')))
-    files += [os.path.join(core.VERIF, 'coq', 'ikesa', f) for f in ('Hdl.v', 'HdlRun.v', 'Shell.v', 'Gen/IkeFacts.v')]
+    files += [os.path.join(core.VERIF, 'coq', 'ikesa', f) for f in ('Hdl.v', 'HdlRun.v', 'Shell.v', 'Gen/IkeFacts.v',
+                                                                  'Endpoint.v', 'EndpointRun.v')]
     files += sorted(glob.glob(os.path.join(core.VERIF, 'py', 'sim', '*.py')))
     files += [os.path.join(core.VERIF, 'py', 'props', 'hdl.py'), os.path.join(core.VERIF, 'py', 'vlib', 'core.py'),
               os.path.join(core.VERIF, 'coq', 'lib', 'Sx.v'), os.path.join(core.VERIF, 'coq', 'lib', 'Bytes.v')]
@@ -308,3 +321,37 @@ TRUSTED = ['hand-written model coq/ikesa/Hdl.v of ALL exchange handlers of ikesa
            'whose .spi every request rewrites are values: the SPIs kept inside a stored request / ChildSa proposal are not '
            'compared, what is SENT is); log output is not modelled; exceptions are classes (any non-IkeSaError exception '
            'is one class)']
+
+
+def check_endpoints(ctx, logs, label, shard=2):
+    """Replay every endpoint, iteration by iteration, in the endpoint model (Endpoint.v)."""
+    cases, names = [], []
+    for ep in sorted(logs):
+        lg = logs[ep]
+        exp = [norm(e) for e in lg.iter_expected]
+        cases.append(([lg.endpoint_input(), exp], []))
+        names.append((ep, lg, exp))
+    bad = core.run_cases(ctx, 'ikesa', 'From IkeSa Require Import EndpointRun.', 'run_endpoint_check', cases, shard=shard,
+                         name='ep_' + ''.join(c if c.isalnum() else '_' for c in label)[:40])
+    out = []
+    for gi, _ in bad:
+        ep, lg, exp = names[gi]
+        body = '\n'.join(['From VLib Require Import Sx.', 'From IkeSa Require Import EndpointRun.',
+                          'Require Import List String ZArith. Import ListNotations.',
+                          'Open Scope string_scope. Open Scope Z_scope.',
+                          f'Eval vm_compute in (run_endpoint_check {core.sx(cases[gi][0])}).'])
+        rc, text = core.coq_eval('ikesa', body, ctx.work + '/ep_detail', name=f'd{gi}')
+        i0 = text.find('= ')
+        i1 = text.rfind(': sx')
+        try:
+            val = parse_sx(text[i0 + 2:i1])
+        except Exception:
+            out.append((f'{label}/{ep}', -1, None, ['unparsable model output'], text[-500:], None))
+            continue
+        if not val:
+            continue
+        idx, mo = val[0], val[1]
+        real = exp[idx] if idx < len(exp) else None
+        path, m, r = locate(mo, real, []) if real is not None else (['extra'], mo, None)
+        out.append((f'{label}/{ep}', idx, lg.iterations[idx] if idx < len(lg.iterations) else None, path, m, r))
+    return out
